@@ -793,10 +793,10 @@ class Mesh:
             data['p'] = np.ascontiguousarray(np.array(data['p']).T)
             data['t'] = np.ascontiguousarray(np.array(data['t']).T)
         if 'boundaries' in data and data['boundaries'] is not None:
-            data['boundaries'] = {k: np.array(v)
+            data['boundaries'] = {k: np.array(v, dtype=np.int32)
                                   for k, v in data['boundaries'].items()}
         if 'subdomains' in data and data['subdomains'] is not None:
-            data['subdomains'] = {k: np.array(v)
+            data['subdomains'] = {k: np.array(v, dtype=np.int32)
                                   for k, v in data['subdomains'].items()}
         data['doflocs'] = data.pop('p')
         data['_subdomains'] = data.pop('subdomains')
